@@ -436,7 +436,11 @@ def observe(p, raw=False):
     if model[0] == "ok" and cc != model[1]:
         raise Violation("exclude_dynamic_elements(%r) did not remove exactly the requested elements"
                         % str(vars_[EXCL]), play=cp, cleaned=cc, expected=model[1])
-    digest = pv.hash_play(pv.serialize_play(cleaned))
+    try:
+        digest = pv.hash_play(pv.serialize_play(cleaned))
+    except UnicodeEncodeError:
+        # a string that cannot be encoded (lone surrogate): no digest exists, the play cannot be verified
+        return ("err", "unencodable")
     return ("ok", digest, cc, model[0])
 
 
@@ -521,7 +525,8 @@ def _check_pair1(case):
 FRAGS = ["a", "b", "k", "x", "y", "1", "0", "True", "None", " ", "'", "'", '"', '"', "\\", "\\", "\n", "\t",
          u"\u200b", u"\u200c", u"\u200d", "\r", "\x00", "\x1b", "\x7f", u"\x85", u"\u2028", "\\n", "\\t", "\\'", '\\"',
          "\\\\", "\\u200b", "', '", "', '", "'), ('", "')])", "', ", "('", "ordereddict([", "ordereddict()", "[", "]",
-         ", ", ",", "/", u"\xe9", u"\u4e2d", u"\U0001F600", ": ", "#", "- ", "{{ x }}"]
+         ", ", ",", "/", u"\xe9", u"\u4e2d", u"\U0001F600", ": ", "#", "- ", "{{ x }}",
+         u"\ud83d", u"\udc80"]      # lone surrogates: YAML escapes such as "\ud83d" load as such strings
 
 _plain_text = st.text("abkxyz01_", min_size=1, max_size=4)
 _special_text = st.builds("".join, st.lists(st.sampled_from(FRAGS), min_size=0, max_size=5))
@@ -1045,7 +1050,8 @@ def _universe(tier):
              {"f": "0.0"}, {"f": "11.0"}, {"l": []}, {"m": []}, S("it's"), S("'b"), S('a"b'), S("a'\""),
              S("1"), S("0"), S("True"), S("None"), S("1.0"), S("[]"), S("ordereddict()"), S(""), S("a"), S("'"), S('"'),
              S("\\"), S("a', 'a"), S("a'), ('a"), S("'a'"), S("\\'"), S("\\n"), S("\n"), S("\t"), S("\\t"),
-             S(u"\u200b"), S("\\u200b"), S("a'"), S("a\""), S("'a"), S("', '"), S("a, a"), S("1, 1"), S("[1]")]
+             S(u"\u200b"), S("\\u200b"), S("a'"), S("a\""), S("'a"), S("', '"), S("a, a"), S("1, 1"), S("[1]"),
+             S(u"a\ud83d"), S(u"\udc80"), S(u"\ud83da"), S(u"a\udc80")]     # lone surrogates (no digest exists)
     values = [S(s) for s in strings] + atoms
     for v in values:                                   # every value under one key
         yield {"m": [[S("k"), v]]}
@@ -1089,7 +1095,11 @@ def exhaustive(tier, seed, shard, nshards, stats):
     nt = 0
     def with_self_splices():
         """the universe, plus plays crafted from the *actual* serialised text of two neighbours"""
-        ser = lambda node: pv.serialize_play(build_py(node)).decode("utf-8")   # noqa
+        def ser(node):
+            try:
+                return pv.serialize_play(build_py(node)).decode("utf-8")
+            except UnicodeEncodeError:
+                return "<unencodable>"
         for tree in _universe(tier):
             yield tree
             items = tree["m"]
@@ -1108,7 +1118,12 @@ def exhaustive(tier, seed, shard, nshards, stats):
         tree = norm(tree)
         obj = build_py(tree)
         c = canon(obj)
-        d = pv.hash_play(pv.serialize_play(obj))
+        try:
+            d = pv.hash_play(pv.serialize_play(obj))
+        except UnicodeEncodeError:
+            n += 1                  # un-encodable string: no digest, nothing to collide with
+            stats.labels["unencodable-play"] += 1
+            continue
         n += 1
         key = repr(c)
         prev = table.get(d)
@@ -1285,6 +1300,12 @@ def check_presence(case):
             if defect == "none":
                 raise Violation("verify_play refused a play with vars, exclusion list and signature: %s" % e, play=cp)
             return {"nontrivial": True, "labels": labels + ["refused"], "key": [defect, cp]}
+        except UnicodeEncodeError:
+            # a string that cannot be encoded (lone surrogate): no digest can be computed, the play is not
+            # verified - which error type reports that is not part of the statement
+            if observe(p) != ("err", "unencodable") and defect == "none":
+                raise
+            return {"nontrivial": False, "labels": labels + ["unencodable-play"]}
         except Exception as e:  # noqa
             if defect == "none":
                 raise
@@ -1327,7 +1348,7 @@ def _revocation_yaml(entries, signature):
     else:
         lines.append("  revoked_playbooks:")
         for name, hx in entries:
-            hash_line = "hash: %s" % (hx if re.search("[a-df]", hx) else '"%s"' % hx)
+            hash_line = "hash: %s" % (hx if (re.search("[a-dfA-DF]", hx) and " " not in hx) else '"%s"' % hx)
             if name is None:       # an entry without a name: only the hash matters
                 lines.append("    - " + hash_line)
             else:
@@ -1346,6 +1367,8 @@ def check_verify(case):
     if p is None:
         return {"nontrivial": False, "labels": labels + ["yaml-unloadable"]}
     o = observe(p)
+    if o[0] == "err" and o[1] == "unencodable":
+        return {"nontrivial": False, "labels": labels + ["unencodable-play"]}
     if o[0] != "ok":
         raise HarnessError("generated signed play does not produce a digest: %r" % (o,))
     digest, ca = o[1], o[2]
@@ -1396,9 +1419,22 @@ def check_verify(case):
         entries = [(None, hx) for _n, hx in entries]
     elif style == "pairs":
         entries = [("batch %d" % (k // 2), hx) for k, (_n, hx) in enumerate(entries)]
+    # the list is maintained by hand: bytes.fromhex-style spellings (upper / mixed case, blanks between the
+    # bytes) denote the same digest
+    hexstyle = case.get("rev_hex", "lower")
+    def _spell(hx, k):
+        if hexstyle == "upper":
+            return hx.upper()
+        if hexstyle == "mixed":
+            return "".join(c.upper() if (i + k) % 3 == 0 else c for i, c in enumerate(hx))
+        if hexstyle == "spaced":
+            return " ".join(hx[i:i + 2] for i in range(0, len(hx), 2))
+        return hx
+    entries = [(n, _spell(hx, k)) for k, (n, hx) in enumerate(entries)]
     if case.get("revoked") is None:
         entries = None
     labels.append("rev-names=" + style)
+    labels.append("rev-hex=" + hexstyle)
     unsigned_list = _revocation_yaml(entries, "AAAA")
     lo = observe(pv.load_playbook_yaml(unsigned_list)[0])
     if lo[0] != "ok":
@@ -1460,7 +1496,8 @@ def _verify_case(draw):
                              st.sampled_from([None, [], ["self"], ["other", "self"], ["self", "other"],
                                               ["self", "other", "other"], ["other", "self", "other"]])))
     return {"mode": mode, "a": tree, "b": b, "revoked": revoked,
-            "rev_names": draw(st.sampled_from(["unique", "unique", "same", "none", "pairs"]))}
+            "rev_names": draw(st.sampled_from(["unique", "unique", "same", "none", "pairs"])),
+            "rev_hex": draw(st.sampled_from(["lower", "lower", "upper", "mixed", "spaced"]))}
 
 
 def strat_verify(tier):
